@@ -231,7 +231,7 @@ class World:
         self.probes = {}
         self.trigram_src = []
         self.states = set()
-        self.nhat = {"build": None, "eval": None}
+        self.nhat = {}
         self.ns_fp = None
         self.reg_fp = None
         self.step = -1
@@ -278,29 +278,31 @@ class World:
         fault = op.get("fault")
         at = None
         flavour = "base"
+        mode = "line"
         if fault and fault.get("kind") == "inject":
+            mode = fault.get("mode", "line")
             if "at" not in fault:
-                hi = self.nhat[kind] or fault.get("hi", 200)
+                hi = self.nhat.get(f"{kind}.{mode}") or fault.get("hi", 200) * (3 if mode == "call" else 1)
                 fault["at"] = 1 + int(fault["frac"] * hi)
             at = fault["at"]
             flavour = fault.get("flavour", "base")
         use_inj = self.inj is not None and (at is not None or self.count_lines)
         try:
             if use_inj:
-                value, wl = self.inj.run(fn, at=at, flavour=flavour)
+                value, wl = self.inj.run(fn, at=at, flavour=flavour, mode=mode, count_both=True)
             else:
                 value, wl = fn()
-        except (SimAbortBase, SimAbortExc) as e:
+        except (SimAbortBase, SimAbortExc):
             self._after_count(kind, use_inj)
             fired = self.inj.fired
-            self.bump(f"fault.fired.inject.{kind}.{flavour}")
+            self.bump(f"fault.fired.inject.{kind}.{mode}.{flavour}")
             self.probe(f"abort_in:{fired[0]}:{fired[1]}")
             return "aborted", None, [], {"fired": list(fired), "at": at}
         except Exception as e:  # noqa: BLE001
             self._after_count(kind, use_inj)
             if at is not None and self.inj.fired is not None:
                 # the injected abort was turned into another exception by formulae's handlers
-                self.bump(f"fault.fired.inject.{kind}.{flavour}")
+                self.bump(f"fault.fired.inject.{kind}.{mode}.{flavour}")
                 return "aborted", None, [], {"fired": list(self.inj.fired), "at": at, "as": type(e).__name__}
             if at is not None:
                 self.bump("fault.armed_not_fired")
@@ -315,9 +317,11 @@ class World:
 
     def _after_count(self, kind, use_inj):
         if use_inj:
-            n = self.inj.count
-            if self.nhat[kind] is None or n > self.nhat[kind]:
-                self.nhat[kind] = n
+            for mode in ("line", "call"):
+                n = self.inj.counts[mode]
+                key = f"{kind}.{mode}"
+                if self.nhat.get(key) is None or n > self.nhat[key]:
+                    self.nhat[key] = n
 
     # -- reference requests
     def ref_request(self, build_op, eval_part=None, eval_fid=None):
@@ -569,6 +573,15 @@ class World:
         pos = [pos_of[i] for i in op["idx"]]
         expect = train["M"][pos] if train["M"].ndim == 2 else train["M"][pos]
         got = obs["M"]
+        if op.get("tpos") is not None:
+            # frame mixing fresh rows and training rows: identity is asked on the training-row positions
+            self.probe("rows_mixed_with_fresh")
+            if got.shape[0] != F.n_rows(self.frame_spec[op["frame"]]) or got.shape[1:] != expect.shape[1:]:
+                self.fail("B", "shape", "shape", f"{part} of {root['op']['formula']!r} on a frame of "
+                          f"{F.n_rows(self.frame_spec[op['frame']])} rows has shape {got.shape}, training columns "
+                          f"{expect.shape[1:]}", {"formula": root["op"]["formula"]})
+                return
+            got = got[op["tpos"]]
         lacking = len(set(op["idx"])) < len(root["retained"])
         if lacking:
             self.probe("rows_frame_is_strict_subset")
@@ -712,8 +725,9 @@ class World:
         frame = self.frame(op["frame"])
         part = op["part"]
         fn = lambda: _do_eval(obj, frame)  # noqa: E731
+        mode = op.get("mode", "line")
         try:
-            base, wl = self.inj.run(fn, at=None)
+            base, wl = self.inj.run(fn, at=None, mode=mode)
         except Exception as e:  # noqa: BLE001
             return {"op": "sweep_eval", "outcome": "baseline-raise", "sd": type(e).__name__}
         N = self.inj.count
@@ -727,14 +741,14 @@ class World:
                     continue
                 points += 1
                 try:
-                    self.inj.run(fn, at=k, flavour=fl)
+                    self.inj.run(fn, at=k, flavour=fl, mode=mode)
                     fired = self.inj.fired is not None
                 except (SimAbortBase, SimAbortExc):
                     fired = True
                 except Exception:  # noqa: BLE001
                     fired = self.inj.fired is not None
                 if fired:
-                    self.bump(f"fault.fired.inject.eval.{fl}")
+                    self.bump(f"fault.fired.inject.eval.{mode}.{fl}")
                     self.probe(f"abort_in:{self.inj.fired[0]}:{self.inj.fired[1]}")
                 self.sweep_ctx = {"k": k, "flavour": fl}
                 self.after_step(op, sweep=True)
@@ -746,11 +760,12 @@ class World:
                     d = f"canary evaluation raised {type(e).__name__}"
                 if d:
                     self.fail("A", "post-abort-canary", "canary",
-                              f"after an abort at line event {k} ({fl}, {self.inj.fired}) of "
+                              f"after an abort at {mode} event {k} ({fl}, {self.inj.fired}) of "
                               f"evaluate_new_data, the same evaluation no longer gives the result it gave before: {d}",
                               {"sweep": {"k": k, "flavour": fl}})
         self.bump("sweep.eval.ops")
         self.bump("sweep.eval.points", points)
+        self.bump(f"sweep.eval.points.{mode}", points)
         self.sweep_ctx = None
         if "A" in self.oracles:
             refo = self.ref_request(root["op"], part, op["frame"])
@@ -767,8 +782,9 @@ class World:
         client = self.clients[op["client"]]
         frame = self.frame(op["frame"])
         fn = lambda: _do_build(client, op, frame)  # noqa: E731
+        mode = op.get("mode", "line")
         try:
-            base, wl = self.inj.run(fn, at=None)
+            base, wl = self.inj.run(fn, at=None, mode=mode)
         except Exception as e:  # noqa: BLE001
             return {"op": "sweep_build", "outcome": "baseline-raise", "sd": type(e).__name__}
         N = self.inj.count
@@ -783,14 +799,14 @@ class World:
             fl = flavours[j % len(flavours)]
             points += 1
             try:
-                self.inj.run(fn, at=k, flavour=fl)
+                self.inj.run(fn, at=k, flavour=fl, mode=mode)
                 fired = self.inj.fired is not None
             except (SimAbortBase, SimAbortExc):
                 fired = True
             except Exception:  # noqa: BLE001
                 fired = self.inj.fired is not None
             if fired:
-                self.bump(f"fault.fired.inject.build.{fl}")
+                self.bump(f"fault.fired.inject.build.{mode}.{fl}")
                 self.probe(f"abort_in:{self.inj.fired[0]}:{self.inj.fired[1]}")
             self.sweep_ctx = {"k": k, "flavour": fl}
             self.after_step(op, sweep=True)
@@ -802,11 +818,12 @@ class World:
                     d = f"canary build raised {type(e).__name__}"
                 if d:
                     self.fail("A", "post-abort-canary", "canary-build",
-                              f"after a build aborted at line event {k} ({fl}, {self.inj.fired}), building the same "
+                              f"after a build aborted at {mode} event {k} ({fl}, {self.inj.fired}), building the same "
                               f"design again gives something else: {d}", {"sweep": {"k": k, "flavour": fl}})
         self.sweep_ctx = None
         self.bump("sweep.build.ops")
         self.bump("sweep.build.points", points)
+        self.bump(f"sweep.build.points.{mode}", points)
         return {"op": "sweep_build", "outcome": "ok", "sd": f"N={N}", "points": points}
 
     # -- after every step -----------------------------------------------------------------
